@@ -150,7 +150,7 @@ PROPERTIES = {
         'not_decided': 'interleaving semantics under preemption',
     },
     'C13': {
-        'rules': ['RF5', 'RF6', 'PDO', 'RF14', 'HB', 'NMT', 'RF17'],
+        'rules': ['RF5', 'RF6', 'PDO', 'RF14', 'HB', 'NMT', 'RF17', 'RF7'],
         'technique': 'decision-table extraction (CORPdoCheck, CORPdoRx, layout with dummy entries), must-facts (NMT gate, pending marker), registration-bit typestate, interval analysis of mapping-table subscripts, non-null dataflow on the synchronous-RPDO table',
         'explanation': 'CORPdoCheck matches only enabled RPDOs with an equal identifier and searches past disabled channels; CORPdoRx: application veto respected, asynchronous written at once, synchronous buffered; synchronous application only in OPERATIONAL and only for a pending frame; payload layout: producer CORPdoGetMap and consumer CORPdoWrite agree on dummy entries (little-endian field starts after the dummy width); SYNC registration typestate; RF6 on CO_RPDO.Map/Size and the SYNC tables; RF5 on Sync.RPdo[i]; element consistency.',
         'not_decided': 'field values written',
@@ -205,7 +205,7 @@ PROPERTIES = {
         'not_decided': 'AG EF idle over the implementation state space (model checking)',
     },
     'C09': {
-        'rules': ['NMT', 'HB'],
+        'rules': ['NMT', 'HB', 'RF7'],
         'exhaustive': True,
         'technique': 'decision-table extraction (NMT command x target x identifier, mode x service), must-facts at '
                      'every transmission site, who-may-write / who-may-send rules',
@@ -217,7 +217,7 @@ PROPERTIES = {
         'not_decided': 'sequencing over command histories beyond what table + single writer imply',
     },
     'C18': {
-        'rules': ['LSS', 'NMT'],
+        'rules': ['LSS', 'NMT', 'RF7'],
         'exhaustive': True,
         'technique': 'decision-table extraction: service table vs CiA 305, every handler folded over its finite input '
                      'classes (step x lookup error x ordering of select/ident, all node ids, all table/index bytes)',
@@ -229,7 +229,7 @@ PROPERTIES = {
         'not_decided': 'sequence semantics beyond the step guards',
     },
     'C14': {
-        'rules': ['PDOCFG', 'RF6', 'PDO', 'RF14', 'OBJWR', 'NMT'],
+        'rules': ['PDOCFG', 'RF6', 'PDO', 'RF14', 'OBJWR', 'NMT', 'RF7'],
         'exhaustive': True,
         'technique': 'decision-table extraction: each PDO parameter Write function folded over valid bit x count x target '
                      'existence x access flags x new value classes; verdict = stored / refused-with-nothing-stored',
@@ -242,7 +242,7 @@ PROPERTIES = {
         'not_decided': 'interaction over write sequences beyond what the guards imply; activated PDO behaviour',
     },
     'C15': {
-        'rules': ['EMCY', 'OBJWR', 'RESET', 'RF17'],
+        'rules': ['EMCY', 'OBJWR', 'RESET', 'RF17', 'RF7'],
         'exhaustive': True,
         'technique': 'decision-table extraction over input classes, must-facts at the transmission site',
         'explanation': 'RF2: register update and EMCY frame only on a real transition (set/clear/reset, silent reset '
@@ -264,25 +264,25 @@ PROPERTIES = {
         'not_decided': 'crash-point durability and RAM/NVM equality',
     },
     'C10': {
-        'rules': ['RF3', 'NMT', 'TMR', 'HB', 'RESET', 'OBJWR'],
+        'rules': ['RF3', 'NMT', 'TMR', 'HB', 'RESET', 'OBJWR', 'RF7'],
         'explanation': 'RF3 for CO_NMT.Tmr and every other handle (H1 no armed handle overwritten, H2 no handle keeps a deleted id, H5 a one-shot callback redefines its own expired handle on every path - a stale id is how another service deletes the heartbeat action); 1017h write rule (delete before create, cyclic with the written period, zero stops, refused write changes nothing); heartbeat frame template (700h+node id, one byte, state byte from the table); NMT gate of the producer; state-byte table both directions; timer action chain shape (RF11) because a dangling tail pointer delays or loses the heartbeat action; RF9a: the producer action is re-established by reset communication (known finding).',
         'not_decided': 'tick-exact heartbeat schedule (timer delta arithmetic, see C07)',
         'technique': 'timer-handle typestate dataflow with callee summaries and requirement propagation; decision-table extraction by partial evaluation of the handlers over input classes; must-facts at transmission sites',
     },
     'C11': {
-        'rules': ['RF3', 'HB', 'RF5', 'NMT', 'OBJWR', 'RESET'],
+        'rules': ['RF3', 'HB', 'RF5', 'NMT', 'OBJWR', 'RESET', 'RF7'],
         'explanation': 'RF3 for CO_HBCONS.Tmr (re-arm deletes first, deactivation deletes, no armed handle overwritten, the one-shot monitor redefines its handle); activation table (duplicate node refused, unlink by identity, event counter and last state reset together with the configuration, accepted path stores exactly the configuration); monitor timeout (event counter +1, callback with the node id, one-shot re-arm with the consumer time, last state untouched); frame check (delete-then-create re-arm, change callback iff the state differs, foreign identifiers ignored); last-state ownership (who may write CO_HBCONS.State); state-byte decode table for all defined bytes and a sample of undefined ones; RF5 on the consumer chain.',
         'not_decided': 'timeout timing; interleaving of monitor expiry with reception',
         'technique': 'timer-handle typestate dataflow with callee summaries and requirement propagation; decision-table extraction by partial evaluation of the handlers over input classes; must-facts at transmission sites',
     },
     'C12': {
-        'rules': ['RF3', 'RF6', 'PDO', 'RF14', 'PDOCFG', 'OBJWR', 'DICT', 'NMT'],
+        'rules': ['RF3', 'RF6', 'PDO', 'RF14', 'PDOCFG', 'OBJWR', 'DICT', 'NMT', 'RF7'],
         'explanation': 'Transmission gates of COTPdoTx by must-facts (NMT, COB-ID valid, inhibit); RF3 H1/H2/H4/H5 for EvTmr/InTmr with the verified invariant (Flags & I) == 0 <=> InTmr released; transmission-type tables of COTPdoReset; SYNC counting (one increment per recognised SYNC for each registered TPDO, type n sends when the counter reaches n and restarts, type 0 every SYNC); TX/RX SYNC-table separation; SYNC registration bit typestate (COSyncAdd / COSyncRemove pairing with the S flag); live event-time write table for every value including 0; RF6 on Map[]/Size[] and the SYNC tables; element consistency of pdo[num].',
         'not_decided': 'emission timing multiset; payload bytes beyond the mapping layout',
         'technique': 'timer-handle typestate dataflow with callee summaries and requirement propagation; decision-table extraction by partial evaluation of the handlers over input classes; must-facts at transmission sites; interval analysis of the mapping tables',
     },
     'C16': {
-        'rules': ['RF3', 'SYNC', 'PDO', 'RESET', 'OBJWR', 'NMT'],
+        'rules': ['RF3', 'SYNC', 'PDO', 'RESET', 'OBJWR', 'NMT', 'RF7'],
         'explanation': '1005h and 1006h write rules with rollback (value based), cache coherence of Sync.CobId / Sync.Cycle with the dictionary, refusal changes nothing, producer started / stopped exactly when bit 30 changes and after the cache is updated; recognition identifier == CobId & 1FFFFFFFh for every DLC; producer send gate and zero-length frame; cycle -> ticks path (cyclic timer, start == cycle); RF3 for CO_SYNC.Tmr; SYNC registration typestate; RF9a/RF3-H1/H3: producer and cached identifier after reset communication (known findings).',
         'not_decided': 'period exactness',
         'technique': 'timer-handle typestate dataflow with callee summaries and requirement propagation; decision-table extraction by partial evaluation of the handlers over input classes; must-facts at transmission sites',
